@@ -3,6 +3,26 @@
 import json, os, glob, re
 ROOT = '/verif/seeded'
 NEEDS = {
+ 'C01x': ("pkg/proof/proof_pool.go verifyMultiSign: the decoded validator set is cached per trust root and the duplicate-signer bookkeeping deletes from the cached set",
+          "three or more validly multi-signed IBTPs of another BitXHub, one replica restarted in between"),
+ 'C01y': ("internal/executor/contracts/appchain_manager.go checkInfo: a de-duplicated admin list is rebuilt from a Go map",
+          "UpdateAppchain by the chain admin with an admin list that names an address twice; two executions of the block compared"),
+ 'C11x': ("internal/ledger/ledger.go New: the start-up rollback error 'rollback to higher height' is swallowed",
+          "a crash with the chain store one block ahead of the state store: the ledger now opens with inconsistent stores instead of refusing"),
+ 'C11y': ("internal/ledger/simple_ledger.go removeJournalsBeforeBlock: journals pruned by a lexicographic key range (journal-1 .. journal-2 also covers journal-10..12)",
+          "a restart or crash around height 12/13, where the first real pruning happens"),
+ 'C12x': ("internal/executor/handle.go rollbackBlocks: the executor re-anchors on the block below its own head instead of below the replaced height",
+          "a block delivered for a height two or more below the executor's head"),
+ 'C18x': ("pkg/order/etcdraft/node.go publishEntries: the leader too resets its pool's batch sequence number to the height it applies",
+          "a leader with two of its batches in flight that generates another batch before the second is applied"),
+ 'C19x': ("pkg/order/mempool/tx_store.go insertOrUpdateByTtlKey: the old arrival entry is deleted under the new time, so a stale entry stays in the arrival index",
+          "a parked transaction superseded by a re-signed one of the same nonce; later transactions admitted at that slot are evicted at once"),
+ 'C20x': ("pkg/order/etcdraft/node.go publishEntries: the skip rule 'height != lastExec+1' weakened to 'height < lastExec'",
+          "a leader change with an in-flight batch of the deposed leader, or a restart between hand-over and recording the applied index"),
+ 'C20y': ("pkg/order/etcdraft/util.go getSnapshot: the snapshot's height is clamped to the persisted chain height while its index is not",
+          "a snapshot taken while the executor lags, served to a replica that is behind the compaction point"),
+ 'C20z': ("pkg/order/solo/node.go: at a checkpoint report lastExec and the batch sequence are rewound to the reported height",
+          "solo ordering, a checkpoint height reported while higher blocks are already handed over"),
  'C01c': ("internal/executor/handle.go processExecuteEvent: i/j slip in the comparator that orders the per-chain timeout roots, so their order is Go's map iteration order",
           "requests of at least two source chains timing out in the same block, and two executions of that block compared"),
  'C02c': ("internal/executor/contracts/interchain.go setDestInterchain: both records read before either is written, so for a service calling itself the receipt counter update is overwritten",
